@@ -216,7 +216,12 @@ class CacheImpl:
         :param \**kw: cache configuration arguments.
 
         """
-        raise NotImplementedError()
+        # implementations, including the Beaker plugin, know this
+        # method as put()
+        put = getattr(self, "put", None)
+        if put is None:
+            raise NotImplementedError()
+        put(key, value, **kw)
 
     def get(self, key, **kw):
         r"""Retrieve a value from the cache.
